@@ -49,7 +49,12 @@ ExtVals == << <<>>,
               << [t |-> "SNI", tag |-> 0, names |-> <<[nt |-> 0, name |-> <<>>], [nt |-> 255, name |-> Fill(1, 255)]>>],
                  [t |-> "MaxFragmentLength", tag |-> 1, v |-> 4], [t |-> "EllipticCurves", tag |-> 10, groups |-> <<23, 0, 65535>>] >>,
               << [t |-> "EllipticCurves", tag |-> 10, groups |-> <<>>], [t |-> "MaxFragmentLength", tag |-> 1, v |-> 255] >>,
-              << [t |-> "SNI", tag |-> 0, names |-> <<>>] >> >>
+              << [t |-> "SNI", tag |-> 0, names |-> <<>>] >>,
+              (* names are bytes: trailing dots, NUL, non-UTF-8, upper case, 255 and 256 bytes, all kept as given *)
+              << [t |-> "SNI", tag |-> 0, names |-> <<[nt |-> 0, name |-> <<97, 46>>], [nt |-> 0, name |-> <<46>>], [nt |-> 0, name |-> <<97, 46, 98, 46>>]>>] >>,
+              << [t |-> "SNI", tag |-> 0, names |-> <<[nt |-> 0, name |-> <<65, 0, 255, 195>>], [nt |-> 1, name |-> <<32, 97, 32>>]>>],
+                 [t |-> "SNI", tag |-> 0, names |-> <<[nt |-> 0, name |-> Fill(3, 256)]>>] >>,
+              << [t |-> "EllipticCurves", tag |-> 10, groups |-> [k \in 1..300 |-> (k * 251) % 65536]], [t |-> "MaxFragmentLength", tag |-> 0 + 1, v |-> 0] >> >>
 (* values the serializer does not support *)
 Unsupported == << [t |-> "hs", m |-> [t |-> "ServerDone", data |-> <<>>]], [t |-> "hs", m |-> [t |-> "Certificate", chain |-> <<>>]],
                   [t |-> "hs", m |-> [t |-> "KeyUpdate", v |-> 0]], [t |-> "hs", m |-> [t |-> "NewSessionTicket", hint |-> <<0, 0>>, ticket |-> <<>>]],
